@@ -103,3 +103,103 @@ pub proof fn lemma_accept(out: Seq<u8>, p: Seq<u8>, qe2: int, o2: int, o3: int, 
     assert forall|i: int| 0 <= i < 12 implies out[i] == p[i] by { assert(out[i] == out.subrange(0, 12)[i]); assert(p[i] == p.subrange(0, 12)[i]); }
     assert(be16(out, 2) == be16(p, 2) && be16(out, 4) == be16(p, 4) && be16(out, 6) == be16(p, 6) && be16(out, 8) == be16(p, 8) && be16(out, 10) == be16(p, 10));
 }
+
+// ---- C06 "header, record sequence and record contents equal the input's, names being equal up to ASCII case"
+// data of one record: out has its fixed part at ho, the pointer-free input has it at ne
+pub open spec fn rd_ci(out: Seq<u8>, ho: int, p: Seq<u8>, ne: int) -> bool {
+    let t = be16(p, ne); let l = be16(p, ne + 8) as int; let d = ne + 10; let d2 = ho + 10;
+    out.subrange(ho, ho + 8) == p.subrange(ne, ne + 8) && (
+        if t == 2 || t == 5 || t == 12 { eq_ci(name_exp(out, d2), p.subrange(d, d + l)) }
+        else if t == 15 { out.subrange(d2, d2 + 2) == p.subrange(d, d + 2) && eq_ci(name_exp(out, d2 + 2), p.subrange(d + 2, d + l)) }
+        else if t == 6 { let n1 = pcs_end(p, d).unwrap(); let n2 = pcs_end(p, n1).unwrap(); let m1 = name_end(out, d2).unwrap(); let m2 = name_end(out, m1).unwrap();
+                         eq_ci(name_exp(out, d2), p.subrange(d, n1)) && eq_ci(name_exp(out, m1), p.subrange(n1, n2)) && out.subrange(m2, m2 + 20) == p.subrange(n2, n2 + 20) }
+        else { be16(out, ho + 8) == l && out.subrange(d2, d2 + l) == p.subrange(d, d + l) })
+}
+// one record: out has it at so, the input at si
+pub open spec fn rec_ci(out: Seq<u8>, so: int, p: Seq<u8>, si: int) -> bool {
+    eq_ci(name_exp(out, so), p.subrange(si, pcs_end(p, si).unwrap())) && rd_ci(out, name_end(out, so).unwrap(), p, pcs_end(p, si).unwrap())
+}
+// a record of the output that the parser accepts keeps its decoded content when the output grows
+pub proof fn lemma_rec_ci_ext(out: Seq<u8>, out2: Seq<u8>, so: int, p: Seq<u8>, si: int, sec: SecT, seen: bool)
+    requires rr_spec(out, so, sec, seen).is_some(), out.len() <= out2.len(), forall|i: int| 0 <= i < out.len() ==> out2[i] == out[i], pf_rr(p, si)
+    ensures rec_ci(out2, so, p, si) == rec_ci(out, so, p, si), rec_end(out2, so) == rec_end(out, so)
+{
+    lemma_pf_rec(p, si); lemma_rec_bounds(p, si);
+    let ho = name_end(out, so).unwrap(); let t = be16(out, ho); let l2 = be16(out, ho + 8) as int; let d2 = ho + 10;
+    let ne = pcs_end(p, si).unwrap(); let l = be16(p, ne + 8) as int;
+    lemma_name_end_ext(out, out2, so);
+    lemma_name_end_bounds(out, so);
+    assert(out2.subrange(ho, ho + 8) =~= out.subrange(ho, ho + 8));
+    assert(be16(out2, ho + 8) == be16(out, ho + 8));
+    if out.subrange(ho, ho + 8) == p.subrange(ne, ne + 8) {
+        assert(t == be16(p, ne)) by { assert(out.subrange(ho, ho + 8)[0] == p.subrange(ne, ne + 8)[0] && out.subrange(ho, ho + 8)[1] == p.subrange(ne, ne + 8)[1]); }
+        if t == 2 || t == 5 || t == 12 { lemma_name_end_ext(out, out2, d2); }
+        else if t == 15 { lemma_name_end_ext(out, out2, d2 + 2); assert(out2.subrange(d2, d2 + 2) =~= out.subrange(d2, d2 + 2)); }
+        else if t == 6 { lemma_name_end_ext(out, out2, d2); let m1 = name_end(out, d2).unwrap(); lemma_name_end_ext(out, out2, m1); let m2 = name_end(out, m1).unwrap();
+                         assert(out2.subrange(m2, m2 + 20) =~= out.subrange(m2, m2 + 20)); }
+        else if l2 == l { assert(out2.subrange(d2, d2 + l) =~= out.subrange(d2, d2 + l)) by { lemma_rr_spec_rec(out, so, sec, seen); lemma_rec_bounds(out, so); } }
+    }
+}
+// the n records of the output from so and the n pointer-free records of the input from si carry the same data, one to one and in order
+pub open spec fn recs_ci(out: Seq<u8>, so: int, p: Seq<u8>, si: int, n: int) -> bool
+    decreases n
+{
+    if n <= 0 { true } else { rec_ci(out, so, p, si) && recs_ci(out, rec_end(out, so), p, pf_end(p, si), n - 1) }
+}
+pub proof fn lemma_recs_ci_ext(out: Seq<u8>, out2: Seq<u8>, so: int, p: Seq<u8>, si: int, n: int, sec: SecT, opt: Option<int>)
+    requires rrs(out, so, n, sec, opt).is_some(), out.len() <= out2.len(), forall|i: int| 0 <= i < out.len() ==> out2[i] == out[i], pf_rrs(p, si, n)
+    ensures recs_ci(out2, so, p, si, n) == recs_ci(out, so, p, si, n)
+    decreases n
+{
+    if n > 0 {
+        lemma_rec_ci_ext(out, out2, so, p, si, sec, opt.is_some());
+        let r = rr_spec(out, so, sec, opt.is_some()).unwrap();
+        lemma_rr_spec_rec(out, so, sec, opt.is_some());
+        lemma_recs_ci_ext(out, out2, r.0, p, pf_end(p, si), n - 1, sec, if r.1 { Some(so + 1) } else { opt });
+    }
+}
+pub proof fn lemma_recs_ci_append(out: Seq<u8>, so: int, p: Seq<u8>, si: int, n: int, sec: SecT, opt: Option<int>)
+    requires n >= 0, rrs(out, so, n, sec, opt) matches Some(r) && rec_ci(out, r.0, p, pf_rrs_end(p, si, n)), recs_ci(out, so, p, si, n)
+    ensures recs_ci(out, so, p, si, n + 1)
+    decreases n
+{
+    if n > 0 {
+        let q = rr_spec(out, so, sec, opt.is_some()).unwrap();
+        lemma_rr_spec_rec(out, so, sec, opt.is_some());
+        lemma_recs_ci_append(out, q.0, p, pf_end(p, si), n - 1, sec, if q.1 { Some(so + 1) } else { opt });
+    } else { reveal_with_fuel(recs_ci, 2); reveal_with_fuel(rrs, 2); reveal_with_fuel(pf_rrs_end, 2); }
+}
+// the question: name equal up to ASCII case, type and class byte for byte
+pub open spec fn q_ci(out: Seq<u8>, qe2: int, p: Seq<u8>) -> bool {
+    let qe = pcs_end(p, 12).unwrap();
+    eq_ci(name_exp(out, 12), p.subrange(12, qe)) && out.subrange(qe2, qe2 + 4) == p.subrange(qe, qe + 4)
+}
+pub proof fn lemma_q_ci_ext(out: Seq<u8>, out2: Seq<u8>, qe2: int, p: Seq<u8>)
+    requires q_ok(out, qe2), q_ci(out, qe2, p), out.len() <= out2.len(), forall|i: int| 0 <= i < out.len() ==> out2[i] == out[i]
+    ensures q_ci(out2, qe2, p)
+{ lemma_name_end_ext(out, out2, 12); lemma_name_end_bounds(out, 12); assert(out2.subrange(qe2, qe2 + 4) =~= out.subrange(qe2, qe2 + 4)); }
+// C06: the compressed message carries the message of the pointer-free input: header byte for byte, the question and then every record, section by
+// section and in order, with every name equal to the input's up to ASCII case and every other field and all other data (the option list of OPT
+// included) byte for byte
+pub open spec fn msg_ci(c: Seq<u8>, p: Seq<u8>) -> bool {
+    c.len() >= 12 && c.subrange(0, 12) == p.subrange(0, 12) && (name_end(c, 12) matches Some(qe2) && q_ci(c, qe2, p))
+    && recs_ci(c, sec_start(c, Section::Answer), p, sec_start(p, Section::Answer), be16(p, 6) as int)
+    && recs_ci(c, sec_start(c, Section::NameServers), p, sec_start(p, Section::NameServers), be16(p, 8) as int)
+    && recs_ci(c, sec_start(c, Section::Additional), p, sec_start(p, Section::Additional), be16(p, 10) as int)
+}
+pub proof fn lemma_msg_ci(out: Seq<u8>, p: Seq<u8>, qe2: int, o2: int, o3: int, opt4: Option<int>)
+    requires wf_packet(p), pf_packet(p), out.len() >= 12, out.subrange(0, 12) == p.subrange(0, 12), q_ok(out, qe2), q_ci(out, qe2, p),
+        rrs(out, qe2 + 4, be16(p, 6) as int, SecT::Answer, None) == Some((o2, None::<int>)),
+        rrs(out, o2, be16(p, 8) as int, SecT::NameServers, None) == Some((o3, None::<int>)),
+        rrs(out, o3, be16(p, 10) as int, SecT::Additional, None) == Some((out.len() as int, opt4)),
+        recs_ci(out, qe2 + 4, p, sec_start(p, Section::Answer), be16(p, 6) as int),
+        recs_ci(out, o2, p, sec_start(p, Section::NameServers), be16(p, 8) as int),
+        recs_ci(out, o3, p, sec_start(p, Section::Additional), be16(p, 10) as int),
+    ensures msg_ci(out, p)
+{
+    assert(p.len() >= 12);
+    assert forall|i: int| 0 <= i < 12 implies out[i] == p[i] by { assert(out[i] == out.subrange(0, 12)[i]); assert(p[i] == p.subrange(0, 12)[i]); }
+    assert(be16(out, 4) == be16(p, 4) && be16(out, 6) == be16(p, 6) && be16(out, 8) == be16(p, 8) && be16(out, 10) == be16(p, 10));
+    lemma_rrs_recs(out, qe2 + 4, be16(p, 6) as int, SecT::Answer, None);
+    lemma_rrs_recs(out, o2, be16(p, 8) as int, SecT::NameServers, None);
+}
